@@ -482,9 +482,12 @@ pub fn rec_block2(args: &Args) {
         }
         .min(1280)
         .max(ov + 28);
-        // keep the number of exchanges reasonable
-        if d.body_len / 16 > 400 && (d.m < ov + 12 + 64 || d.first_szx.map(|s| s < 2).unwrap_or(false)) {
-            d.body_len %= 3000;
+        // keep traces affordable: every event carries the cached body, so bound body length x exchanges
+        // (long bodies only with large blocks, many blocks only with short bodies)
+        let eff_bs = (16usize << d.first_szx.unwrap_or(6).min(6)).min((d.m - ov - 12).max(16));
+        let eff_bs = if d.reduce.is_some() { 16 } else { eff_bs };
+        if d.body_len / eff_bs > 60 {
+            d.body_len = eff_bs * (20 + d.body_len % 40) + d.body_len % eff_bs;
         }
         xid += 1;
         download(&mut out, start, &d, &mut r, xid);
